@@ -1,7 +1,7 @@
 CONSTANTS
-  BodyLens = {0, 1, 2, 3, 4, 8, 12, 16, 20, 24, 28}
-  Tails = {0, 4, 20, 24, 28}
-  Contexts = {"none", "uid", "unk0"}
+  BodyLens = {0, 2, 4, 12, 20, 24, 28}
+  Tails = {0, 4, 24, 28}
+  Contexts = {"none", "unk0"}
   Derived = FALSE
   Sealed = FALSE
 INIT Init
